@@ -418,6 +418,8 @@ func (w *world) entryKey(ip, form string) string {
 			return w.net3 + ".8/31"
 		}
 		return w.net3 + ".6/31"
+	case "net2": // a wider range around the same addresses: overlaps "net", independent lifetime
+		return w.net3 + ".0/28"
 	case "other":
 		return w.net3 + ".64/30"
 	}
@@ -438,8 +440,12 @@ func (w *world) handshake(ip, kind string) (res string, cred int) {
 	conn := &fakeConn{remote: &net.TCPAddr{IP: net.ParseIP(w.realIP(ip)), Port: 40000}}
 	req := &packet.HandshakeRequest{Version: "3", Protocol: "tcp", ConnectionType: "control"}
 	switch kind {
-	case "Anon":
+	case "Anon": // the two request shapes handleFirstConnection treats as a registration ...
 		req.Token = "new-client"
+	case "Anon2":
+		req.Token = fmt.Sprintf("anonymous:c18-%d", w.cloud.anonSeq.Load())
+	case "Zero": // ... and a ClientID-0 request that is none (no registration; it fails the credential check)
+		req.Token = ""
 	case "Good":
 		req.ClientID = knownClient
 		conn.pending = "challenge-" + ip
@@ -569,6 +575,8 @@ func drive(env *fw.Env, b fw.Behaviour) *fw.Trace {
 		}
 	}
 	cur := map[string]*hsCall{}
+	nClean, cleanName, cleanT0 := 0, "", int64(0) // a clean-up pass running as its own process (CleanScan .. CleanDel)
+	diverged := ""
 	nCalls := map[string]int{}
 	released := map[string]int{}
 	logHs := func(c *hsCall, out hsOut, exp string) *fw.Trace {
@@ -590,6 +598,7 @@ func drive(env *fw.Env, b fw.Behaviour) *fw.Trace {
 		banned, _ := w.bf.IsBanned(w.realIP(ip))
 		w.log(fw.Event{"ev": "Query", "ip": ip, "bl": !allowed, "ban": banned, "probe": probe, "t0": t0, "t1": w.ms1()})
 		settle()
+		w.queryMany(ip)
 		if st != nil {
 			noteAgree(b.Src, st.Bl == !allowed && st.Ban == banned, fmt.Sprintf("beh %d: query answered bl=%v ban=%v, model bl=%v ban=%v", b.ID, !allowed, banned, st.Bl, st.Ban))
 		}
@@ -623,6 +632,51 @@ func drive(env *fw.Env, b fw.Behaviour) *fw.Trace {
 				}
 			}
 			noteAgree(b.Src, got == st.Adm, fmt.Sprintf("beh %d: flood of %d admitted %d, model %d", b.ID, st.N, got, st.Adm))
+		case "FloodHs": // st.N registration handshakes back to back through the real HandleHandshake
+			gap()
+			got := 0
+			for k := 0; k < st.N; k++ {
+				c := &hsCall{ip: st.IP, kind: st.Kind, t0: w.ms0()}
+				res, cred := w.handshake(st.IP, st.Kind)
+				if t := logHs(c, hsOut{res, cred}, ""); t != nil {
+					return t
+				}
+				if res == "ok" {
+					got++
+				}
+			}
+			noteAgree(b.Src, got == st.Adm, fmt.Sprintf("beh %d: flood of %d %s handshakes granted %d, model %d", b.ID, st.N, st.Kind, got, st.Adm))
+		case "CleanScan":
+			// deviation "split clean-up": the pass runs as its own process; if it deletes through UnbanIP
+			// after its scan it parks at bf.unban.enter before the first delete
+			c, ok := any(w.bf).(interface{ VerifCleanup() })
+			if !ok {
+				return unreal(fmt.Sprintf("step %d: clean-up export shim absent (hook patch not applied)", i))
+			}
+			nClean++
+			cleanName, cleanT0 = fmt.Sprintf("clean.%d", nClean), w.ms0()
+			state := w.s.Start(cleanName, func() any { w.register(false); c.VerifCleanup(); return true })
+			if state == sched.Done {
+				w.log(fw.Event{"ev": "Clean", "what": "bf", "t0": cleanT0, "t1": w.ms1()})
+				cleanName = ""
+			} else if state != sched.Parked {
+				return unreal(fmt.Sprintf("step %d: clean-up pass is %s", i, state))
+			}
+		case "CleanDel":
+			if cleanName == "" {
+				// one critical section: the scan already removed what it found expired. The rest of the history
+				// is still a real execution - it is run and judged, but counted as diverged from the model.
+				if diverged == "" {
+					diverged = fmt.Sprintf("step %d: the clean-up pass removed its expired bans inside the scan (one critical section): nothing is left to schedule", i)
+				}
+				break
+			}
+			if ns, _ := w.s.Step(cleanName); ns == sched.Done {
+				w.log(fw.Event{"ev": "Clean", "what": "bf", "t0": cleanT0, "t1": w.ms1()})
+				cleanName = ""
+			} else if ns != sched.Parked {
+				return unreal(fmt.Sprintf("step %d: clean-up pass is %s after its delete", i, ns))
+			}
 		case "Reload":
 			t0 := w.ms0()
 			w.newIPManager()
@@ -764,7 +818,7 @@ func drive(env *fw.Env, b fw.Behaviour) *fw.Trace {
 		query(ip, true, nil)
 	}
 	checkBudget(len(beh.S))
-	if pendingHs := len(cur) > 0; pendingHs || len(w.parkedAsync()) > 0 {
+	if pendingHs := len(cur) > 0; pendingHs || len(w.parkedAsync()) > 0 || cleanName != "" {
 		// the asynchronous removals still parked run now, one after the other (each is an event) ...
 		for _, name := range w.parkedAsync() {
 			t0 := w.ms0()
@@ -776,6 +830,9 @@ func drive(env *fw.Env, b fw.Behaviour) *fw.Trace {
 		// ... then the handshakes still in flight finish (whatever they spawn runs freely)
 		if !w.drain() {
 			return &fw.Trace{Status: fw.DriverError, Note: "processes did not finish after drain"}
+		}
+		if cleanName != "" {
+			w.log(fw.Event{"ev": "Clean", "what": "bf", "t0": cleanT0, "t1": w.ms1()})
 		}
 		for _, p := range sortedKeys(cur) {
 			c := cur[p]
@@ -792,6 +849,9 @@ func drive(env *fw.Env, b fw.Behaviour) *fw.Trace {
 	if overrun != "" {
 		return &fw.Trace{Status: fw.Inconclusive, Note: overrun}
 	}
+	if diverged != "" {
+		return &fw.Trace{Status: fw.Diverged, Note: diverged, Events: w.events}
+	}
 	return &fw.Trace{Status: fw.Realised, Events: w.events}
 }
 
@@ -802,6 +862,35 @@ func sortedKeys(m map[string]*hsCall) []string {
 	}
 	sort.Strings(ks)
 	return ks
+}
+
+// queryMany: when the address is covered by more than one blacklisted range, which range the look-up
+// meets first follows Go's randomised map iteration - one answer says little. The same state is
+// therefore asked manyQueries times in one bracket and every answer is judged (event QueryN).
+// Skipped while an expired exact entry exists: every look-up would spawn its lazy removal.
+const manyQueries = 240
+
+func (w *world) queryMany(ip string) {
+	ranges := 0
+	now := time.Now()
+	for _, r := range w.ipm.GetBlacklist() {
+		if r.IP == w.entryKey(ip, "net") || r.IP == w.entryKey(ip, "net2") {
+			ranges++
+		}
+		if r.IP == w.realIP(ip) && !r.ExpiresAt.IsZero() && now.After(r.ExpiresAt) {
+			return
+		}
+	}
+	if ranges < 2 {
+		return
+	}
+	t0, no := w.ms0(), 0
+	for k := 0; k < manyQueries; k++ {
+		if allowed, _ := w.ipm.IsAllowed(w.realIP(ip)); allowed {
+			no++
+		}
+	}
+	w.log(fw.Event{"ev": "QueryN", "ip": ip, "n": manyQueries, "no": no, "t0": t0, "t1": w.ms1()})
 }
 
 // ungatedSpawns handles a tree without the yield points: the lazy removals a gate look-up spawns
@@ -1171,12 +1260,14 @@ const (
 	actsSeq  = `{"Bad", "Good", "Query", "Tick", "Unban", "Clean", "MUnban"}`
 	actsBl   = `{"Blk", "BlkP", "BlkO", "MUnbl", "Wl", "WlO", "UnWl", "Query", "Tick", "Unbl", "CleanL", "Reload"}`
 	actsRate = `{"Anon", "Tick", "Idle", "Flood"}`
+	actsRtHs = `{"Anon", "Anon2", "Zero", "Tick", "Idle", "FloodHs"}` // the limiter as seen through HandleHandshake
+	actsSplt = `{"Bad", "Query", "Tick", "CleanScan", "CleanDel"}`    // deviation: clean-up that scans, then deletes
 	actsGate = `{"Blk", "Bad", "Good", "Anon", "Query", "Tick"}`
-	actsAll  = `{"Bad", "Good", "Anon", "Query", "Tick", "Unban", "Unbl", "Clean", "CleanL", "MUnban", "Blk", "BlkP", "MUnbl", "Wl", "Reload", "Flood"}`
+	actsAll  = `{"Bad", "Good", "Anon", "Query", "Tick", "Unban", "Unbl", "Clean", "CleanL", "MUnban", "Blk", "BlkP", "MUnbl", "Wl", "Reload", "Flood", "Anon2"}`
 	fixHead  = `{"unban", "unbl", "order"}` // patches C18-1..3
 	fixAll   = `{"unban", "unbl", "order", "shadow"}`
-	allSteps = `{"Hs", "Cred", "Ban", "Query", "Tick", "Unban", "Unbl", "Clean", "CleanL", "MUnban", "Blk", "BlkP", "MUnbl", "Wl", "UnWl", "Reload", "Idle", "Flood"}`
-	allStDev = `{"Hs", "Cred", "Ban", "Query", "Tick", "Unban", "Unbl", "Clean", "CleanL", "MUnban", "Blk", "BlkP", "MUnbl", "Wl", "UnWl", "Reload", "Idle", "Flood", "dev"}`
+	allSteps = `{"Hs", "Cred", "Ban", "Query", "Tick", "Unban", "Unbl", "Clean", "CleanL", "MUnban", "Blk", "BlkP", "MUnbl", "Wl", "UnWl", "Reload", "Idle", "Flood", "FloodHs", "CleanScan", "CleanDel"}`
+	allStDev = `{"Hs", "Cred", "Ban", "Query", "Tick", "Unban", "Unbl", "Clean", "CleanL", "MUnban", "Blk", "BlkP", "MUnbl", "Wl", "UnWl", "Reload", "Idle", "Flood", "FloodHs", "CleanScan", "CleanDel", "dev"}`
 )
 
 // tm = time constants of a model configuration: threshold, permanent threshold, window, ban (ticks), clock bound
@@ -1184,7 +1275,7 @@ type tm struct{ thr, perm, win, ban, clock int }
 
 func (t tm) consts() map[string]string {
 	return map[string]string{"THR": strconv.Itoa(t.thr), "PERMAT": strconv.Itoa(t.perm), "WIN": strconv.Itoa(t.win), "BAN": strconv.Itoa(t.ban),
-		"MAXCLOCK": strconv.Itoa(t.clock), "MAXTOTAL": strconv.Itoa(t.perm + 1), "MAXADM": "4"}
+		"MAXCLOCK": strconv.Itoa(t.clock), "MAXTOTAL": strconv.Itoa(t.perm + 1), "MAXADM": "4", "BLFORMS": `{"ip", "net"}`}
 }
 
 func mcJob(name, procs, acts, atomic, fixed, invs string, t tm) fw.TLCJob {
@@ -1204,6 +1295,26 @@ func reloadClock(env *fw.Env) int {
 		return 2
 	}
 	return 0
+}
+
+func genRateHs(env *fw.Env) fw.TLCJob {
+	mc := 5
+	if env.Tier == "thorough" {
+		mc = 8
+	}
+	j := genJob("gen:rate-hs", `{"h1"}`, actsRtHs, "TRUE", fixAll, `{"FloodHs"}`, tm{2, 3, 2, 2, mc})
+	j.Consts["MAXADM"] = "10"
+	return j
+}
+
+func genRanges(env *fw.Env) fw.TLCJob {
+	acts, forms, mc := `{"Blk", "BlkP", "Tick", "Query"}`, `{"net", "net2"}`, 3
+	if env.Tier == "thorough" {
+		acts, forms, mc = `{"Blk", "BlkP", "MUnbl", "Wl", "Tick", "Query", "Reload", "CleanL"}`, `{"ip", "net", "net2"}`, 4
+	}
+	j := genJob("gen:ranges", `{"h1"}`, acts, "TRUE", fixAll, `{"mixed"}`, tm{2, 3, 2, 2, mc})
+	j.Consts["BLFORMS"] = forms
+	return j
 }
 
 func genRate(env *fw.Env) fw.TLCJob {
@@ -1227,10 +1338,12 @@ func main() {
 		ModelJobs: func(env *fw.Env) []fw.TLCJob {
 			if env.Tier == "quick" {
 				lists := `{"Blk", "BlkP", "MUnbl", "Wl", "Query", "Tick", "Unbl", "Reload", "CleanL"}`
-				rate := mcJob("mc:rate", one, actsRate, "TRUE", fixAll, strict, tm{2, 3, 2, 2, 8})
+				rate := mcJob("mc:rate", one, `{"Anon", "Anon2", "Zero", "Tick", "Idle", "Flood", "FloodHs"}`, "TRUE", fixAll, strict, tm{2, 3, 2, 2, 8})
 				rate.Consts["MAXADM"] = "8"
 				return []fw.TLCJob{
 					rate,
+					// deviation "split clean-up" (scan, then delete): violations only through cleanLive
+					mcJob("mc:clean-split", one, `{"Bad", "Query", "Tick", "CleanScan", "CleanDel", "MUnban"}`, "FALSE", fixAll, "BanHoldsOrKnown BlacklistHolds", tm{2, 3, 2, 2, 4}),
 					mcJob("mc:lists:head", one, lists, "TRUE", fixHead, "BanHolds BlacklistHoldsOrKnown", tm{2, 3, 2, 2, 4}),
 					mcJob("mc:race:as-is", two, race, "FALSE", "{}", asIs, tm{2, 3, 2, 2, 4}),
 					mcJob("mc:race:repaired", two, race, "FALSE", fixAll, strict, tm{2, 3, 2, 2, 4}),
@@ -1242,10 +1355,14 @@ func main() {
 			full := `{"Bad", "Good", "Query", "Tick", "Unban", "CleanF", "CleanB", "MUnban"}`
 			lists := `{"Blk", "BlkP", "BlkO", "MUnbl", "Wl", "WlO", "UnWl", "Query", "Tick", "Unbl", "CleanL", "Reload"}`
 			listsHs := `{"Blk", "BlkP", "MUnbl", "Wl", "Query", "Tick", "Unbl", "Reload", "Anon", "Bad"}` // lists in front of the other gates
-			rate := mcJob("mc:rate", one, `{"Anon", "Bad", "Tick", "Idle", "Flood"}`, "TRUE", fixAll, strict, tm{2, 3, 2, 2, 9})
+			rate := mcJob("mc:rate", one, `{"Anon", "Anon2", "Zero", "Tick", "Idle", "Flood", "FloodHs"}`, "TRUE", fixAll, strict, tm{2, 3, 2, 2, 9})
 			rate.Consts["MAXADM"] = "10"
+			l3a := mcJob("mc:lists3:as-is", one, `{"Blk", "BlkP", "MUnbl", "Wl", "Query", "Tick", "Unbl", "Reload", "CleanL"}`, "TRUE", "{}", asIs, tm{2, 3, 2, 2, 4})
+			l3r := mcJob("mc:lists3:repaired", one, `{"Blk", "BlkP", "MUnbl", "Wl", "Query", "Tick", "Unbl", "Reload", "CleanL"}`, "TRUE", fixAll, strict, tm{2, 3, 2, 2, 4})
+			l3a.Consts["BLFORMS"], l3r.Consts["BLFORMS"] = `{"ip", "net", "net2"}`, `{"ip", "net", "net2"}`
 			return []fw.TLCJob{
-				rate,
+				rate, l3a, l3r,
+				mcJob("mc:clean-split", two, `{"Bad", "Query", "Tick", "CleanScan", "CleanDel", "MUnban"}`, "FALSE", fixAll, "BanHoldsOrKnown BlacklistHolds", tm{2, 3, 2, 2, 4}),
 				mcJob("mc:lists:head", one, lists, "TRUE", fixHead, "BanHolds BlacklistHoldsOrKnown", tm{2, 3, 2, 2, 5}),
 				mcJob("mc:lists+hs:as-is", one, listsHs, "TRUE", "{}", asIs, tm{2, 3, 2, 2, 3}),
 				mcJob("mc:lists+hs:repaired", one, listsHs, "TRUE", fixAll, strict, tm{2, 3, 2, 2, 3}),
@@ -1277,6 +1394,13 @@ func main() {
 				genJob("gen:gate", one, actsGate, "TRUE", "{}", `{"Hs", "Cred", "Ban", "Query"}`, tm{2, 3, 2, 2, 2}),
 				// rate-limiter histories: take(s), idle for a whole refill period, flood - one per transition
 				genRate(env),
+				// ... and the same through HandleHandshake, over every request shape that is a registration
+				genRateHs(env),
+				// two overlapping blacklisted ranges with independent lifetimes: every query made while an
+				// expired and a live entry coexist (the driver asks each such state many times)
+				genRanges(env),
+				// deviation "split clean-up": every delete of a scanned address, every recorded deviation
+				genJob("legacy:clean-split", one, actsSplt, "TRUE", fixAll, `{"CleanDel", "dev"}`, tm{2, 3, 2, 2, 4}),
 			}
 			if env.Tier == "thorough" {
 				jobs = append(jobs,
@@ -1333,9 +1457,9 @@ func main() {
 		MaxBehSrc: func(env *fw.Env, src string) int {
 			if env.Tier == "thorough" {
 				if strings.HasPrefix(src, "gen:seq") {
-					return 2000
+					return 1500
 				}
-				return 1000
+				return 800
 			}
 			switch {
 			case strings.HasPrefix(src, "gen:ban"):
